@@ -9,6 +9,7 @@ import (
 	"go/types"
 	"sort"
 	"strings"
+	"time"
 
 	"golang.org/x/tools/go/ssa"
 )
@@ -909,4 +910,63 @@ func init() {
 	}
 	exactStubs["strings.ToLower"] = mk(true)
 	exactStubs["strings.ToUpper"] = mk(false)
+}
+
+// time.Since / time.Until through the symbolic clock: Now().Sub(t) and t.Sub(Now()) with the real
+// (time.Time).Sub executed from its source.
+func init() {
+	sub := func(fr *frame, a, b value) value {
+		tp := fr.i.prog.ImportedPackage("time")
+		if tp == nil {
+			fr.i.p.abort("unsupported", "time package not loaded")
+		}
+		tt := tp.Type("Time").Type()
+		if d, ok := wholeSecondsSub(fr, a, b); ok {
+			return d
+		}
+		fn := fr.i.prog.LookupMethod(tt, tp.Pkg, "Sub")
+		if fn == nil {
+			fr.i.p.abort("unsupported", "time.Time.Sub not found")
+		}
+		return call(fr.i, fr, token.NoPos, fn, []value{a, b})
+	}
+	exactStubs["(time.Time).Sub"] = func(fr *frame, args []value) value {
+		if d, ok := wholeSecondsSub(fr, args[0], args[1]); ok {
+			return d
+		}
+		return stubDecline{}
+	}
+	exactStubs["time.Since"] = func(fr *frame, args []value) value { return sub(fr, fr.i.p.timeNow(), args[0]) }
+	exactStubs["time.Until"] = func(fr *frame, args []value) value { return sub(fr, args[0], fr.i.p.timeNow()) }
+}
+
+// (time.Duration).String of a symbolic duration is only ever logged: a placeholder text.
+func init() {
+	exactStubs["(time.Duration).String"] = func(fr *frame, args []value) value {
+		if d, ok := args[0].(int64); ok {
+			return time.Duration(d).String()
+		}
+		return "<duration>"
+	}
+}
+
+// wholeSecondsSub: both times come from the engine's clock or verifrt.Unix (wall word 0: no
+// nanoseconds, no monotonic reading; seconds within a few decades of each other), so
+// t.Sub(u) = (t.sec - u.sec) * 1e9 without the saturation branches of the real method, whose
+// division and remainder by 1e9 of a symbolic product no solver here decides in time.
+func wholeSecondsSub(fr *frame, a, b value) (value, bool) {
+	p := fr.i.p
+	ta, ok1 := a.(structure)
+	tb, ok2 := b.(structure)
+	if !ok1 || !ok2 || len(ta) < 2 || len(tb) < 2 {
+		return nil, false
+	}
+	wa, oka := ta[0].(uint64)
+	wb, okb := tb[0].(uint64)
+	if !oka || !okb || wa != 0 || wb != 0 {
+		return nil, false
+	}
+	ts := p.ts
+	diff := ts.BvBin(OpBvSub, p.i64(ta[1]), p.i64(tb[1]))
+	return p.mkInt(ts.BvBin(OpBvMul, diff, ts.BV(1000000000, 64)), types.Int64), true
 }
